@@ -113,3 +113,15 @@ prop("C13", [_lazy("dictkeys", "rule_rx1"), _lazy("dictkeys", "rule_dk")],
      "go straight to _convert (DK-2).",
      "that the value type T of the mapping admits every value (C01 territory); `$` also matching before a trailing "
      "newline (Python regex semantics of `$` with match())")
+
+prop("C19", [_lazy("header", "rule_inj4"), _lazy("header", "rule_shape")],
+     "Static decision for every argv / preamble text of: each run-time component of the header is located in its "
+     "lexical context (raw triple-quoted literal) and must either be a fixed-alphabet value or pass, as its LAST "
+     "transformation, a replacement of the closing quote run by quote-free text, with non-quote neighbours and a "
+     "newline after it (INJ-4); with placeholders the header parses as one string statement; run() emits header + "
+     "generate_code(...) with the stored preamble passed unchanged (SHAPE-1); every layout generate_code can "
+     "return is [imports, delimiter]? [preamble, delimiter]? classes newline with the untransformed preamble at "
+     "most once, present also without imports and guarded by `if preamble:` alone (SHAPE-2); from --preamble to "
+     "the stored value only str.strip() is applied (SHAPE-3).",
+     "that every argv yields a valid module is argued from the escaper reasoning, not by parsing outputs; "
+     "non-UTF-8 argv bytes (surrogates) are outside the analysis")
